@@ -14,6 +14,12 @@ for c, rc, v, rest in re.findall(r"^\s+(C\d+): exit=(\d+) violations=(\d+)(.*)$"
     res[c] = {"exit": int(rc), "violations": int(v), "no_failing_input": "no-failing-input-found" in rest}
 d = os.path.join("/verif/seeded", name)
 os.makedirs(d, exist_ok=True)
+try:    # keep the results of checks run earlier against the same patch
+    old = json.load(open(os.path.join(d, "meta.json")))
+    if open(os.path.join(d, "patch.diff")).read() == open(os.path.join(src, "patch.diff")).read():
+        res = {**old.get("checks", {}), **res}
+except Exception:
+    pass
 shutil.copy(os.path.join(src, "patch.diff"), d)
 shutil.copy(os.path.join(src, "demo_test.go"), os.path.join(d, "demo_test.go"))
 notes = open(os.path.join(src, "notes.md")).read() if os.path.exists(os.path.join(src, "notes.md")) else ""
